@@ -347,7 +347,7 @@ func (s *c03Svc) shutdownAndCheck(what interface{}, workers int, producersDone f
 	}
 	var R int64
 	deadline := time.Now().Add(30 * time.Second)
-	stable := 0
+	stable, lockStable := 0, 0
 wait:
 	for {
 		select {
@@ -362,6 +362,22 @@ wait:
 			break wait
 		case <-time.After(300 * time.Millisecond):
 		}
+		// a second stable pattern: Shutdown waits for the workers while goroutines (workers in a
+		// callback, producers) are blocked on the lock of the service's connection - the lock is
+		// only ever held for a few instructions, unless the waiting Shutdown itself holds it
+		if mon.CountGoroutines("go-res.(*Service).Shutdown", "sync.(*WaitGroup).Wait") == 1 {
+			if n := mon.CountGoroutines("go-res.(*Service).Conn", "sync.(*RWMutex).RLock"); n > 0 {
+				lockStable++
+				if lockStable >= 6 {
+					c.Violation("C03/shutdown-hang:connection-lock", fmt.Sprintf("Shutdown never returns: it waits in WaitGroup.Wait while %d goroutines using the connection (publishing callbacks, Conn() callers) have been blocked on the service's connection lock for more than 2 s", n),
+						map[string]interface{}{"scenario": what, "goroutines_blocked_on_the_connection_lock": n})
+					c.Abort()
+					return false
+				}
+				continue
+			}
+		}
+		lockStable = 0
 		if producersDone != nil && !producersDone() {
 			if time.Now().After(deadline) {
 				c.Inconclusive("Shutdown did not return within the watchdog while producers were still running")
@@ -379,6 +395,7 @@ wait:
 			if stable >= 3 {
 				c.Violation("C03/shutdown-hang", fmt.Sprintf("Shutdown never returns: it waits in WaitGroup.Wait while the %d remaining workers are parked in Cond.Wait and no goroutine is left to wake them (state=stopping, queue nil=%v, queued=%d, groups=%d)", workersLeft, qnil, queued, groups),
 					map[string]interface{}{"scenario": what, "workers_left": workersLeft, "queue_nil": qnil, "queued": queued, "groups": groups})
+				c.Abort()
 				return false
 			}
 			time.Sleep(700 * time.Millisecond)
